@@ -15,11 +15,11 @@ DIRECTIVES = ['.org', '.memzone', '.align']
 DATATYPES = ['.fill', '.zero', '.zerountil', '.byte', '.2byte', '.4byte', '.8byte', '.cstr', '.asciiz']
 PREPROC = ['include', 'require', 'create_memzone', 'define', 'if', 'elif', 'else', 'endif', 'ifdef', 'ifndef', 'mute', 'unmute', 'emit']
 MN_POOL = ['ld', 'lda', 'ld.w', 'ld.b', 'st', 'sta', 'mov', 'mov16', 'a', 'x', 'jmp', 'j', 'add.c', 'adc', 'push2', 'p', 'inc', 'in',
-           'sub_w', 'br.eq', 'br', 'q7', '_brk', 'ld_', '_t_']
+           'sub_w', 'br.eq', 'br', 'q7', '_brk', 'ld_', '_t_', 'push.b', 'push.r']
 REG_POOL = ['a', 'b', 'x', 'sp', 'hl', 'ix', 'r0', 'r1', 'r10', 'mar', 'acc', 'sp_', '_fp', 'b0', 'b1', 'b10', 'ah', 'bh', 'c0h',
             # accepted register names that are assembler keywords in another letter case
             'ZERO', 'Fill', 'ORG', 'Byte0']
-MACRO_POOL = ['push2x', 'mov2', 'ld2', 'm.dot', 'jsr2', 'st', '_push2', 'call_']
+MACRO_POOL = ['push2x', 'mov2', 'ld2', 'm.dot', 'jsr2', 'st', '_push2', 'call_', 'push', 'add', 'mov.w', 'ld.x']
 
 
 # free text of the definition that ends up inside generated JSON / XML / YAML files
@@ -98,7 +98,8 @@ class C20(core.Check):
     required_buckets = {b: 3 for b in ['target:vscode', 'target:sublime', 'vocab:macros', 'vocab:no-macros', 'vocab:registers',
                                        'vocab:no-registers', 'vocab:predefined', 'vocab:no-predefined', 'mnemonic:contains-dot',
                                        'mnemonic:prefix-of-another', 'mnemonic:single-letter', 'vocab:underscore-at-edge',
-                                       'description:special-characters', 'register:looks-like-a-numeric-literal', 'vocab:enumeration-keys', 'verbosity:1', 'verbosity:2', 'verbosity:3']}
+                                       'description:special-characters', 'register:looks-like-a-numeric-literal', 'vocab:enumeration-keys',
+                                       'vocab:macro-is-dotted-prefix-of-instruction', 'verbosity:1', 'verbosity:2', 'verbosity:3']}
 
     def __init__(self):
         self.words = 0
@@ -130,6 +131,10 @@ class C20(core.Check):
                 tags.add('vocab:underscore-at-edge')
             if enum_keys:
                 tags.add('vocab:enumeration-keys')
+            if any(i_.startswith(m_ + '.') for m_ in macros for i_ in mns):
+                tags.add('vocab:macro-is-dotted-prefix-of-instruction')
+            if any(m_.startswith(i_ + '.') for m_ in macros for i_ in mns):
+                tags.add('vocab:instruction-is-dotted-prefix-of-macro')
             if any(r_ in ('b0', 'b1', 'b10', 'ah', 'bh', 'c0h') for r_ in regs):
                 tags.add('register:looks-like-a-numeric-literal')
             if isa['description'] != DESCRIPTIONS[0]:
@@ -308,16 +313,55 @@ class C20(core.Check):
                         found.append((f'register-not-first-rule-in-context/{tags_ctx}',
                                       {'line': line, 'register': form, 'won': None if best is None else {'scope': best[1], 'span': [best[2], best[3]]},
                                        'rule_order': [sc for sc, _ in rules][:14]}))
+        # (5) rule order at the start of a statement: the first rule of the top-level context that matches at column 0 must be the
+        # rule of the word's own class over the whole word (a macro `push` must not take `push.b`, nor `mov` the macro `mov.w`)
+        main_rules = ctxs.get('main')
+        if main_rules:
+            comp = []
+            ok_rx = True
+            for sc, pat in main_rules:
+                try:
+                    comp.append((sc, re.compile(pat)))
+                except re.error:
+                    ok_rx = False
+            if not ok_rx:
+                vs.append(core.inconclusive('pattern not compilable by Python re: context main'))
+            else:
+                for cls, words, want in (('instruction', m['mns'], 'variable.function.instruction'), ('macro', m['macros'], 'variable.function.macro')):
+                    for w in words:
+                        for form in (w, w.upper()):
+                            self.words += 1
+                            line = form + ' 5'
+                            best = None
+                            for k_, (sc, rx) in enumerate(comp):
+                                mm = rx.search(line)
+                                if mm is None or mm.end() == mm.start():
+                                    continue
+                                key = (mm.start(), k_)
+                                if best is None or key < best[0]:
+                                    best = (key, sc, mm.start(), mm.end())
+                            if best is None or best[1] != want or (best[2], best[3]) != (0, len(form)):
+                                mech = None
+                                if cls == 'macro' and best is not None and best[1] == 'variable.function.instruction' and best[2] == 0 \
+                                        and line[:best[3]].lower() in {x.lower() for x in m['mns']} and line[best[3]:best[3] + 1] == '.':
+                                    # defect emulation for the listed finding: the instruction rule comes first and its
+                                    # alternatives end in \b, which also holds in front of the "." of a longer dotted name
+                                    mech = 'dotted-macro-shadowed-by-instruction-prefix'
+                                found.append((f'{cls}-not-first-rule-at-statement-start',
+                                              {'line': line, 'won': None if best is None else {'scope': best[1], 'span': [best[2], best[3]]},
+                                               'rule_order': [sc for sc, _ in main_rules][:10]}, mech))
         # an instruction must not also be classified as a macro and vice versa
         if not m['macros'] and (pats.get('macro') is not None or po.get('includes_macros')) and m['target'] == 'vscode':
             found.append(('macro-rule-present-without-macros', {'pattern': pats.get('macro')}))
         seen = set()
-        for sig, det in found:
-            if sig in seen:
+        for f_ in found:
+            sig, det = f_[0], f_[1]
+            mech = f_[2] if len(f_) > 2 else None
+            if (sig, mech) in seen:
                 continue
-            seen.add(sig)
+            seen.add((sig, mech))
             det['vocabulary'] = {k: v for k, v in m.items() if k != 'target'}
-            vs.append(core.violated(sig + '/' + m['target'], det, buckets=tags, nt=nt))
+            vs.append(core.violated(sig + '/' + m['target'], det, buckets=tags, nt=nt, mech=mech))
         return vs or [core.held(buckets=tags, nt=nt)]
 
     def sample_of(self, case, outcomes):
